@@ -55,7 +55,7 @@ Section WithQueryer.
     destruct (Nat.modulo (adv (w_tick w)) 2) as [|m]; cbn [run] in *; [contradiction|].
     rewrite run_bind in *.
     assert (U1 : ~ latched (w_ticked w)) by exact U.
-    pose proof (nq_ok (mk_cx (cx_be c) (S (cx_chase c)) (cx_dname c) (cx_nsl c)) adv (w_ticked w) U1) as Hn.
+    pose proof (nq_ok (mk_cx (cx_be c) (S (cx_chase c)) (cx_dname c) (cx_nsl c) (cx_walk c)) adv (w_ticked w) U1) as Hn.
     destruct (run adv (nq _) (w_ticked w)) as [w1 r]. cbn [fst snd] in Hn.
     destruct r; cbn [run fst snd] in *; try (do 2 eexists; reflexivity); try (apply Hn in L; destruct L as (? & ? & ?); discriminate).
     all: destruct (latched_dec w1) as [L1|U1']; [apply Hn in L1; destruct L1 as (? & ? & ?); discriminate|].
@@ -163,8 +163,8 @@ Proof.
   exfalso. apply L. exact E.
 Qed.
 
-Lemma client_over : forall maxdepth qmin v6 Smax Fmax Lmax G gen c, over_ok (client maxdepth qmin v6 Smax Fmax Lmax G gen c).
-Proof. intros. unfold client. apply pipeline_over. intros cc. apply query_over. Qed.
+Lemma client_over : forall maxdepth qmin v6 Smax Fmax Lmax G gen c, over_ok (clientg maxdepth qmin v6 Smax Fmax Lmax G gen c).
+Proof. intros. unfold clientg. apply pipeline_over. intros cc. apply query_over. Qed.
 
 Lemma fresh_unlatched : forall pol, ~ latched (fresh pol).
 Proof.
@@ -175,10 +175,10 @@ Qed.
 (* over budget  =>  SERVFAIL built by the policy path from the client's request (so it carries the
    EDE for an EDNS client), never handed to the failure cache — on the miss path and on the hit path *)
 Lemma overbudget_lemma : forall maxdepth qmin v6 Smax Fmax Lmax G gen pol adv,
-  let '(w', r) := run adv (client maxdepth qmin v6 Smax Fmax Lmax G gen cx0) (fresh pol) in
+  let '(w', r) := run adv (clientg maxdepth qmin v6 Smax Fmax Lmax G gen cx0) (fresh pol) in
   latched w' -> exists e, r = ReplyWork e true.
 Proof.
-  intros. unfold client.
+  intros. unfold clientg.
   match goal with |- context [pipeline _ _ _ _ _ ?nq ?nq0 ?vq cx0] =>
     pose proof (pipeline_over_ede maxdepth qmin v6 Smax Fmax nq nq0 vq
                   (fun cc => query_over maxdepth qmin v6 Smax Fmax Lmax G gen _ cc) cx0 adv (fresh pol) (fresh_unlatched pol)) as H end.
@@ -189,7 +189,7 @@ Qed.
    internal budget of 1; the reply now carries the EDE *)
 Definition witness_pol : policy := mk_T_RecursionWorkPolicy mode_enforce 128 1 4 8 32 32 32 32.
 Lemma overbudget_hit_path_example_lemma :
-  let '(w', r) := run (fun _ => 1%nat) (client 30 5 false 1 1 3 2 1 cx0) (fresh witness_pol) in
+  let '(w', r) := run (fun _ => 1%nat) (client 30 5 false 1 1 3 2 cx0) (fresh witness_pol) in
   latched w' /\ r = ReplyWork (RLimit kind_internal 1) true.
 Proof. vm_compute. split; [discriminate|reflexivity]. Qed.
 
@@ -197,7 +197,7 @@ Proof. vm_compute. split; [discriminate|reflexivity]. Qed.
    adversary; in neither mode is anything ever refused *)
 Lemma shadow_equals_off_lemma : forall maxdepth qmin v6 Smax Fmax Lmax G gen pol_off pol_shadow adv,
   p_mode pol_off = mode_off -> p_mode pol_shadow = mode_shadow ->
-  let p := client maxdepth qmin v6 Smax Fmax Lmax G gen cx0 in
+  let p := clientg maxdepth qmin v6 Smax Fmax Lmax G gen cx0 in
   snd (run adv p (fresh pol_off)) = snd (run adv p (fresh pol_shadow)) /\
   w_exch (fst (run adv p (fresh pol_off))) = w_exch (fst (run adv p (fresh pol_shadow))) /\
   w_sub (fst (run adv p (fresh pol_off))) = w_sub (fst (run adv p (fresh pol_shadow))).
@@ -220,9 +220,9 @@ Qed.
    reply.  (The content of this lemma is that [client] — with [resolve] defined by well-founded
    recursion on the code's own counters — is a definable total function; the proof is reflexivity.) *)
 Lemma resolve_terminates_lemma : forall maxdepth qmin v6 Smax Fmax Lmax G gen adv w,
-  exists w' r, run adv (client maxdepth qmin v6 Smax Fmax Lmax G gen cx0) w = (w', r).
+  exists w' r, run adv (clientg maxdepth qmin v6 Smax Fmax Lmax G gen cx0) w = (w', r).
 Proof. intros. destruct (run adv _ w) as [w' r]. eauto. Qed.
 
 Lemma work_bound_off_lemma : forall maxdepth qmin v6 Smax Fmax Lmax G gen adv w,
-  w_exch (fst (run adv (client maxdepth qmin v6 Smax Fmax Lmax G gen cx0) w)) <= w_exch w + N.of_nat (work_bound maxdepth qmin Smax Fmax Lmax G gen).
+  w_exch (fst (run adv (clientg maxdepth qmin v6 Smax Fmax Lmax G gen cx0) w)) <= w_exch w + N.of_nat (work_bound maxdepth qmin Smax Fmax Lmax G gen).
 Proof. intros. apply run_costs. apply client_costs. Qed.
